@@ -1050,7 +1050,8 @@ def order_variations(base, tier):
     ees = ORDER_EE + tuple(f"len{k}" for k in range(1, n + 2) if k != n)
     for q, e0, e, ee, lm1, sd, aa in itertools.product(ORDER_Q, ORDER_E0, ORDER_E, ees, lm1s, ORDER_SEED, ORDER_AA):
         for w in (ws if tier == "thorough" else [ws[k % len(ws)]]):
-            out.append((k, {"q": q, "e0": e0, "e": e, "ee": ee, "lm1": lm1, "seed": sd, "aa": aa, "w": w}))
+            # surplus shooting moves (more moves than interfaces is legal: the examples ship such inputs)
+            out.append((k, {"q": q, "e0": e0, "e": e, "ee": ee, "lm1": lm1, "seed": sd, "aa": aa, "w": w, "xm": (0, 1, 3)[k % 3]}))
             k += 1
     return out
 
@@ -1094,6 +1095,8 @@ def order_label(var):
         if not isinstance(var[key], str):
             out.append(f"{name} = {show(var[key])}")
     out.append(f"workers = {var['w']}")
+    if var.get("xm"):
+        out.append(f"{var['xm']} shooting move(s) more than interfaces")
     return ", ".join(out)
 
 
@@ -1105,6 +1108,8 @@ def order_edit(written, var, steps):
     tis = sim["tis_set"]
     sim["steps"] = steps
     c["runner"]["workers"] = var["w"]
+    if var.get("xm"):
+        sim["shooting_moves"] = list(sim["shooting_moves"]) + ["sh"] * var["xm"]
     for key, v in (("quantis", var["q"]), ("lambda_minus_one", var["lm1"]), ("accept_all", var["aa"])):
         if isinstance(v, str):
             tis.pop(key, None)
